@@ -448,11 +448,13 @@ def _gen_spec(rng, profile, n_min, n_max, fail_p, modes, retry_p, falsy_p, cb_p,
                     continue
                 ncases = rng.randint(1, 3)
                 cases = []
+                # some switches have a falsy label ('' — like False or 0 in a boolean / integer switch)
+                falsy = rng.random() < 0.15
                 for ci in range(ncases):
                     c = pick(earlier, private)
                     if c is None or c == dec:
                         continue
-                    cases.append([f'l{ci}', c])
+                    cases.append(['' if falsy and ci == 0 else f'l{ci}', c])
                     refs[c] = refs.get(c, 0) + 1
                 if not cases:
                     continue
